@@ -197,6 +197,43 @@ Definition wf_response (ishead : bool) (r : response) : bool :=
   forallb (fun m => lenN (render_head m (m_fields m)) <=? maxhdr + 1) (p_interim r) &&
   (lenN (render_head (p_final r) (final_fields r)) <=? maxhdr + 1).
 
+(* the same predicate without the two limits of the implementation (header block <= maxhdr + 1 bytes,
+   chunk-size line <= maxchlen bytes), and the two limits on their own:
+   wf_response = wf_response_nolimits && within_limits (HttpRoundtrip.wf_response_limit_clauses) *)
+Definition chunk_line_ok (c : chunk) : bool := lenN (c_digits c) + lenN (c_ext c) + 2 <=? maxchlen.
+
+Definition wf_chunk_nolimit (c : chunk) : bool :=
+  negb (match c_data c with [] => true | _ => false end) &&
+  match hex_value (c_digits c) 0 with
+  | Some v => (v =? lenN (c_data c)) && negb (match c_digits c with [] => true | _ => false end)
+  | None => false
+  end &&
+  wf_ext (c_ext c) && (lenN (c_data c) + 2 <? two64).
+
+Definition wf_framing_nolimits (ishead : bool) (r : response) : bool :=
+  match p_framing r with
+  | FrNone => bodiless ishead (m_status (p_final r))
+  | FrClen pos => negb (bodiless ishead (m_status (p_final r))) && (lenN (p_body r) <? two64)
+  | FrChunked pos cs ld le tr =>
+    negb (bodiless ishead (m_status (p_final r))) && forallb wf_chunk_nolimit cs &&
+    negb (match ld with [] => true | _ => false end) && forallb (fun c => c =? 48) ld &&
+    wf_ext le && (lenN (concat (map c_data cs)) <? two64)
+  | FrClose => negb (bodiless ishead (m_status (p_final r)))
+  end.
+
+Definition wf_response_nolimits (ishead : bool) (r : response) : bool :=
+  forallb (wf_msg 100 199 true) (p_interim r) &&
+  wf_msg 200 599 (match p_framing r with FrNone => true | _ => false end) (p_final r) &&
+  wf_framing_nolimits ishead r.
+
+Definition within_limits (r : response) : bool :=
+  forallb (fun m => lenN (render_head m (m_fields m)) <=? maxhdr + 1) (p_interim r) &&
+  (lenN (render_head (p_final r) (final_fields r)) <=? maxhdr + 1) &&
+  match p_framing r with
+  | FrChunked _ cs ld le _ => forallb chunk_line_ok cs && (lenN ld + lenN le + 2 <=? maxchlen)
+  | _ => true
+  end.
+
 (* ------------------------------------------------------------------ C08: bounds on any callback *)
 Definition cb_ok (limit : N) (c : cb) : bool :=
   match c with
